@@ -94,6 +94,31 @@ func zzhGridOK(t *Table) bool {
 	return true
 }
 
+// zzhCellsOwnState: no two cells of the table share the state that edits write in place, so
+// that a later edit of one cell cannot show up in another (needed for the step to be inductive).
+func zzhCellsOwnState(t *Table) bool {
+	var cells []*TableCell
+	for r := range t.Rows {
+		for c := range t.Rows[r].Cells {
+			cells = append(cells, &t.Rows[r].Cells[c])
+		}
+	}
+	for i := range cells {
+		for j := i + 1; j < len(cells); j++ {
+			// the property record (span and merge markers are written into it in place) and the
+			// paragraphs must be the cell's own; value objects that the API only ever replaces
+			// (width, alignment) may be shared
+			if cells[i].Properties != nil && cells[i].Properties == cells[j].Properties {
+				return false
+			}
+			if !zzvDisjoint(cells[i].Paragraphs, cells[j].Paragraphs) {
+				return false
+			}
+		}
+	}
+	return true
+}
+
 // zzhBuild creates a rows x cols table through the real CreateTable with symbolic texts.
 func zzhBuild(rows, cols int) (*Table, [][]string) {
 	d := New()
@@ -206,6 +231,7 @@ func ZZH_C09_RowOps() {
 	if valid {
 		zzvAssert(err == nil, "row edit: a request inside the bounds succeeds")
 		zzvAssert(zzhGridOK(t), "row edit: the table is a well-formed grid afterwards")
+		zzvAssert(zzhCellsOwnState(t), "row edit: no two cells share mutable state afterwards")
 		zzvAssert(zzhTextsAre(t, want), "row edit: every cell holds what the rows-by-columns model predicts")
 		zzvAssert(t.GetRowCount() == len(want) && t.GetColumnCount() == cols, "row edit: row/column counts follow the model")
 		zzvReach("edited")
@@ -285,6 +311,7 @@ func ZZH_C09_ColumnOps() {
 	if valid {
 		zzvAssert(err == nil, "column edit: a request inside the bounds succeeds")
 		zzvAssert(zzhGridOK(t), "column edit: the table is a well-formed grid afterwards")
+		zzvAssert(zzhCellsOwnState(t), "column edit: no two cells share mutable state afterwards")
 		zzvAssert(zzhTextsAre(t, want), "column edit: every cell holds what the rows-by-columns model predicts")
 		zzvAssert(t.GetRowCount() == rows && t.GetColumnCount() == len(want[0]), "column edit: row/column counts follow the model")
 		zzvReach("edited")
@@ -329,6 +356,7 @@ func ZZH_C09_CellWrites() {
 	if zzvAnd(zzvAnd(r >= 0, r < rows), zzvAnd(c >= 0, c < cols)) {
 		zzvAssert(err == nil, "cell write: an address inside the table succeeds")
 		zzvAssert(zzhGridOK(t), "cell write: the table is a well-formed grid afterwards")
+		zzvAssert(zzhCellsOwnState(t), "cell write: no two cells share mutable state afterwards")
 		// untargeted cells unchanged; the targeted cell holds the new content
 		ok := true
 		for i := 0; i < rows; i++ {
@@ -377,6 +405,7 @@ func ZZH_C09_MergePlain() {
 	if valid {
 		zzvAssert(err == nil, "merge: a range inside the table succeeds")
 		zzvAssert(zzhGridOK(t), "merge: the table is a well-formed grid afterwards")
+		zzvAssert(zzhCellsOwnState(t), "merge: no two cells share mutable state afterwards")
 		zzvAssert(len(t.Rows) == rows, "merge: the number of rows is unchanged")
 		ok := true
 		if op == 0 {
@@ -538,6 +567,7 @@ func zzhMergedOp(op int) {
 		zzvReach("rejected")
 	} else {
 		zzvAssert(zzhGridOK(t), "merged table: a successful edit leaves a well-formed grid")
+		zzvAssert(zzhCellsOwnState(t), "merged table: no two cells share mutable state afterwards")
 		zzvReach("edited")
 	}
 	_ = rows
